@@ -46,7 +46,11 @@ if _HAS_JAX:
 
                 def _jvp(fun, primals, tangents):
                     func = fun.call_wrapped if hasattr(fun, 'call_wrapped') else fun
-                    return _public_jvp(func, primals, tangents)
+                    # a function of a single argument gets a bare tangent array (see _get_tangents),
+                    # which the private jax _jvp accepted but the public jax.jvp does not
+                    if not isinstance(tangents, (tuple, list)):
+                        tangents = (tangents,)
+                    return _public_jvp(func, tuple(primals), tuple(tangents))
 
                 def _vjp(fun, *primals):
                     func = fun.call_wrapped if hasattr(fun, 'call_wrapped') else fun
